@@ -160,11 +160,7 @@ Spline<K, G> & Spline<K, G>::concat_global(const Spline & other)
 
   const double tend = t_max();
 
-  if (empty()) {
-    m_g0 = other.m_g0;
-  } else {
-    m_end_g[N1 - 1] = other.m_g0;
-  }
+  if (empty()) { m_g0 = other.m_g0; }
 
   m_end_t.resize(N1 + N2);
   m_end_g.resize(N1 + N2);
@@ -180,6 +176,9 @@ Spline<K, G> & Spline<K, G>::concat_global(const Spline & other)
     m_seg_Del[N1 + i] = other.m_seg_Del[i];
   }
 
+  // junction pose is written after the copy since other may be *this
+  if (N1 > 0) { m_end_g[N1 - 1] = other.m_g0; }
+
   return *this;
 }
 
@@ -192,11 +191,7 @@ Spline<K, G> & Spline<K, G>::concat_local(const Spline & other)
   const double tend = t_max();
   const G gend      = end();
 
-  if (empty()) {
-    m_g0 = composition(m_g0, other.m_g0);
-  } else {
-    m_end_g.back() = composition(m_end_g.back(), other.m_g0);
-  }
+  if (empty()) { m_g0 = composition(m_g0, other.m_g0); }
 
   m_end_t.resize(N1 + N2);
   m_end_g.resize(N1 + N2);
@@ -211,6 +206,9 @@ Spline<K, G> & Spline<K, G>::concat_local(const Spline & other)
     m_seg_T0[N1 + i]  = other.m_seg_T0[i];
     m_seg_Del[N1 + i] = other.m_seg_Del[i];
   }
+
+  // junction pose is written after the copy since other may be *this
+  if (N1 > 0) { m_end_g[N1 - 1] = composition(m_end_g[N1 - 1], other.m_g0); }
 
   return *this;
 }
